@@ -44,6 +44,7 @@ BODIES = {
     "pragma-no-charset": (b'<meta http-equiv=content-type content="text/html"><p>' + TEXT, None, None),
     "late-koi8": (FILL + b"<meta charset=koi8-r><p>" + TEXT, None, "koi8-r"),
     "late-bogus": (FILL + b"<meta charset=bogus><p>" + TEXT, None, None),
+    "late-beyond-first-chunk": (b"<!--" + b"x" * 11000 + b"-->" + b"<p>a</p>" * 300 + b"<meta charset=koi8-r><p>" + TEXT, None, "koi8-r"),
     # several declarations met by tree construction: the first usable one decides (it either changes the encoding or
     # confirms the tentative one - both make it certain), later ones are ignored
     "early-then-conflict": (b"<meta charset=windows-1251><meta charset=koi8-r><p>" + TEXT, "windows-1251", ("windows-1251", "koi8-r")),
@@ -96,12 +97,28 @@ def expected_encoding(args, bom, body):
     return tentative, False, "tentative"
 
 
-def run_config(args, bom, body):
+class ReadOnlySource(object):
+    """a byte source with nothing but read(): html5lib wraps it in its own BufferedStream and has to replay the buffered
+    bytes after the BOM check, after the prescan and after a restart; `size` caps what one read returns"""
+
+    def __init__(self, data, size):
+        self.data, self.pos, self.size = data, 0, size
+
+    def read(self, n=-1):
+        if n is None or n < 0:
+            n = len(self.data) - self.pos
+        n = min(n, self.size)
+        out = self.data[self.pos:self.pos + n]
+        self.pos += len(out)
+        return out
+
+
+def run_config(args, bom, body, reads=None):
     import html5lib
     data = BOMS[bom] + BODIES[body][0]
     kw = {k: v for k, v in args.items() if v is not None}
     p = html5lib.HTMLParser(tw.builder("dom"))
-    d = p.parse(data, useChardet=False, **kw)
+    d = p.parse(data if reads is None else ReadOnlySource(data, reads), useChardet=False, **kw)
     return p.documentEncoding, trees.canon_dom(d), data
 
 
@@ -127,9 +144,9 @@ def tree_of_decoded(data, bom, encname, drop_truncated_tail=False):
     return _DECODED[key]
 
 
-def judge_config(args, bom, body):
+def judge_config(args, bom, body, reads=None):
     try:
-        got_enc, got_tree, data = run_config(args, bom, body)
+        got_enc, got_tree, data = run_config(args, bom, body, reads)
     except Exception as e:
         return ("parse raised %s: %s" % (type(e).__name__, str(e)[:80]), "raised", None, None)
     exp_enc, certain, why = expected_encoding(args, bom, body)
@@ -143,6 +160,18 @@ def judge_config(args, bom, body):
     if got_tree != exp_tree:
         return ("tree differs from the tree of the bytes decoded as %s" % got_enc, "tree:%s:%s" % (why, body), exp_tree, got_tree)
     return None
+
+
+def _readonly_shard(jobs):
+    out = []
+    for bom, body, rd in jobs:
+        for a in ({}, {"likely_encoding": "iso-8859-2"}, {"transport_encoding": "koi8-r"}):
+            args = dict.fromkeys(ARGS)
+            args.update(a)
+            j = judge_config(args, bom, body, rd)
+            out.append(None if j is None else engine.Violation(H, {"kind": "config", "args": args, "bom": bom, "reads": rd}, body,
+                                                               j[2], j[3], j[0], j[1]))
+    return out
 
 
 def _config_shard(args):
@@ -219,7 +248,7 @@ def execute(config, case):
     if config.get("kind") == "prescan":
         j = judge_prescan(case)
     else:
-        j = judge_config(config["args"], config["bom"], case)
+        j = judge_config(config["args"], config["bom"], case, config.get("reads"))
     if j is None:
         return None
     return engine.Violation(H, config, case, j[2], j[3], j[0], j[1])
@@ -241,11 +270,21 @@ def run(run):
             for cls, (cfg, body, j) in r["viol"].items():
                 if cls not in classes:
                     classes[cls] = engine.Violation(H, cfg, body, j[2], j[3], j[0], cls)
+        # the same precedence through a source that can only be read (no seek/tell), with read sizes 1, 3, 1000 and unlimited
+        jobs = [(b, body, rd) for b in BOMS for body in BODIES for rd in (1, 3, 1000, 1 << 30)]
+        for vs in engine.pmap(_readonly_shard, [jobs[i:i + 12] for i in range(0, len(jobs), 12)], chunksize=1):
+            for v in vs:
+                run.add("evaluations")
+                run.add("read_only_source_parses")
+                if v is not None and v.diff_class not in classes:
+                    classes[v.diff_class] = v
         run.set("configurations", run.cov.get("evaluations", 0))
         run.sample({"args": {"transport_encoding": "koi8-r"}, "bom": "none", "body": "late-charset"})
     if "b" in only:
         L = 4 if quick else 5
-        shards = [(s, f, L - 1) for s in PSEEDS for f in PLET]      # (seed, first letter, max further letters)
+        # (seed, first letter, max further letters); the thorough tier goes one letter deeper from the empty prefix only
+        # (one level deeper from all 8 seeds is 380 M prescans: hours)
+        shards = [(s, f, (L - 1) if s == b"" else 3) for s in PSEEDS for f in PLET]
         for r in engine.pmap(_prescan_shard, shards, chunksize=1):
             run.add("evaluations", r["evals"])
             run.add("prescan_inputs", r["evals"])
